@@ -24,6 +24,7 @@ type Obligation struct {
 	Func      string
 	Kind      string
 	Text      string // source text of the clause
+	Clause    Expr   // the ensures clause (for replay)
 }
 
 type ModelVar struct {
@@ -123,6 +124,7 @@ type FuncResult struct {
 	Ctx         *Ctx
 	Err         error
 	Notes       []string
+	Gen         *FuncGen
 }
 
 // GenFunction generates obligations for fn against its contract.
@@ -139,7 +141,7 @@ func GenFunction(prog *Program, fn *ssa.Function, ct *FuncContract) *FuncResult 
 				notes = append(notes, n)
 			}
 			sort.Strings(notes)
-			return &FuncResult{Fn: fn.String(), Obligations: g.obls, Ctx: g.c, Notes: notes}
+			return &FuncResult{Fn: fn.String(), Obligations: g.obls, Ctx: g.c, Notes: notes, Gen: g}
 		}
 		seed = append([]string(nil), g.c.classList...)
 		seedSorts = map[string]Sort{}
